@@ -5,6 +5,7 @@ import (
 	"fmt"
 	"math"
 	"math/big"
+	"sort"
 	"strconv"
 	"strings"
 	"sync"
@@ -133,7 +134,56 @@ func intSpellings(n *big.Int) []string {
 	}
 	if n.Sign() >= 0 {
 		out = append(out, "+"+dec, "+"+signed(n, "0x", 16))
+		// the explicit plus sign with every other syntax
+		out = append(out,
+			"+"+signed(n, "0X", 16), "+"+signed(n, "0o", 8), "+"+signed(n, "0", 8), "+"+signed(n, "0b", 2),
+			"+"+underscored(dec), "+"+signed(n, "0x_", 16),
+			"+"+dec+".0", "+"+dec+"e0", "+"+strconv.FormatFloat(f, 'e', -1, 64), "+"+strconv.FormatFloat(f, 'x', -1, 64),
+			"+00"+dec,
+		)
 	}
+	// exponent forms that keep every digit, leading zeros behind a base prefix and a sign
+	out = append(out, dec+"e0", dec+"e+0", dec+"E-0", dec+"0e-1", signed(n, "0x00", 16), signed(n, "0b0", 2), signed(n, "0o0", 8), signed(n, "0_", 8))
+	return out
+}
+
+// naturalCuts are the positions where a numeral falls into meaningful
+// pieces: behind the sign, behind the base prefix, around the exponent
+// marker, the point and the first underscore, and before the last digit.
+func naturalCuts(s string) []int {
+	var out []int
+	add := func(i int) {
+		if i <= 0 || i >= len(s) {
+			return
+		}
+		for _, o := range out {
+			if o == i {
+				return
+			}
+		}
+		out = append(out, i)
+	}
+	i := 0
+	if i < len(s) && (s[i] == '+' || s[i] == '-') {
+		i++
+		add(i)
+	}
+	if i+1 < len(s) && s[i] == '0' && strings.ContainsRune("xXoObB", rune(s[i+1])) {
+		add(i + 2)
+	} else if i+1 < len(s) && s[i] == '0' {
+		add(i + 1)
+	}
+	if j := strings.IndexAny(s, "eEpP"); j > 0 && !strings.ContainsAny(s[:j], "xX") || j > 0 && strings.ContainsRune("pP", rune(s[j])) {
+		add(j)
+		add(j + 1)
+	}
+	if j := strings.IndexByte(s, '.'); j > 0 {
+		add(j)
+	}
+	if j := strings.IndexByte(s, '_'); j > 0 {
+		add(j + 1)
+	}
+	add(len(s) - 1)
 	return out
 }
 
@@ -287,6 +337,46 @@ func gridDeliveries(s Src) []Case {
 	return out
 }
 
+// textDeliveries: the ways a text reaches the setting besides the four of
+// gridDeliveries. They are crossed with the reduced target list gridTextTargets.
+func textDeliveries(s Src) []Case {
+	text := s.text()
+	out := []Case{
+		{Src: s, Deliv: "resolver", PC: "env"},
+		{Src: s, Deliv: "resolver", PC: "noop"},
+		{Src: s, Deliv: "resolve-env"},
+		{Src: s, Deliv: "envcfg"},
+		{Src: s, Deliv: "default"},
+	}
+	if _, ok := numeralValue(strings.TrimSpace(text)); !ok {
+		return out
+	}
+	// a numeral built from pieces: literal head + number/string/resolver tail, and all pieces referenced
+	for i, cut := range naturalCuts(text) {
+		out = append(out, Case{Src: s, Deliv: "pieces", Cuts: []int{cut}, Kinds: "ln"})
+		switch i % 3 {
+		case 0:
+			out = append(out, Case{Src: s, Deliv: "pieces", Cuts: []int{cut}, Kinds: "sn"})
+		case 1:
+			out = append(out, Case{Src: s, Deliv: "pieces", Cuts: []int{cut}, Kinds: "lr"})
+		case 2:
+			out = append(out, Case{Src: s, Deliv: "pieces", Cuts: []int{cut}, Kinds: "rl"})
+		}
+	}
+	return out
+}
+
+// gridTextTargets: the text -> value step does not depend on the target, so
+// the additional text deliveries are read through one target of every kind
+// and width (plain variant), the pointer-to-named 64 bit integers and the getters.
+type tv struct{ tgt, variant string }
+
+var gridTextTargets = []tv{
+	{"int64", ""}, {"uint64", ""}, {"int64", "ptr-named"}, {"uint64", "ptr-named"}, {"int8", ""}, {"uint8", "named"},
+	{"int16", ""}, {"uint16", ""}, {"int32", "ptr"}, {"uint32", ""}, {"int", "named"}, {"uint", "ptr-set"},
+	{"float32", ""}, {"float64", "set"}, {"string", ""}, {"bool", ""}, {"duration", ""}, {"duration", "ptr"},
+}
+
 func enumGrid(yield func(Case) bool) {
 	for _, s := range gridSources() {
 		for _, c := range gridDeliveries(s) {
@@ -297,6 +387,20 @@ func enumGrid(yield func(Case) bool) {
 					if !yield(c) {
 						return
 					}
+				}
+			}
+			for _, g := range getterTargets {
+				c.Tgt, c.Var, c.Read = g, "", "getter"
+				if !yield(c) {
+					return
+				}
+			}
+		}
+		for _, c := range textDeliveries(s) {
+			for _, t := range gridTextTargets {
+				c.Tgt, c.Var, c.Read = t.tgt, t.variant, "unpack"
+				if !yield(c) {
+					return
 				}
 			}
 			for _, g := range getterTargets {
@@ -471,12 +575,32 @@ func genCase(t *rapid.T) Case {
 	default:
 		c.Src = genString(t, tg)
 	}
-	c.Deliv = rapid.SampledFrom([]string{"lit", "ref", "resolver", "lit", "splice", "splice-val"}).Draw(t, "deliv")
+	c.Deliv = rapid.SampledFrom([]string{"lit", "ref", "resolver", "pieces", "splice", "splice-val", "resolve-env", "lit", "envcfg", "default", "pieces", "resolver"}).Draw(t, "deliv")
 	switch c.Deliv {
 	case "splice":
 		c.Cut = rapid.IntRange(0, len(c.Src.text())).Draw(t, "cut")
 	case "resolver":
-		c.Noop = rapid.IntRange(0, 3).Draw(t, "noop") == 3
+		c.PC = rapid.SampledFrom(parseConfigNames).Draw(t, "pc")
+	case "pieces":
+		text := c.Src.text()
+		n := rapid.IntRange(1, 3).Draw(t, "ncuts")
+		nat := naturalCuts(text)
+		for i := 0; i < n; i++ {
+			if len(nat) > 0 && rapid.Bool().Draw(t, "natural") {
+				c.Cuts = append(c.Cuts, rapid.SampledFrom(nat).Draw(t, "cut"))
+			} else {
+				c.Cuts = append(c.Cuts, rapid.IntRange(0, len(text)).Draw(t, "cut"))
+			}
+		}
+		sort.Ints(c.Cuts)
+		k := make([]byte, n+1)
+		for i := range k {
+			k[i] = "nlsr"[rapid.IntRange(0, 3).Draw(t, "kind")]
+		}
+		c.Kinds = string(k)
+	}
+	if c.Deliv != "lit" && c.Deliv != "ref" && c.Deliv != "envcfg" {
+		c.IC = rapid.IntRange(0, 7).Draw(t, "ignore-commas") == 7
 	}
 	return c
 }
